@@ -15,6 +15,7 @@
 
 """A context for the handling of a trigger."""
 
+import dis
 import uuid
 from types import FrameType
 from typing import Dict, Optional, List, Tuple
@@ -34,6 +35,38 @@ from deep.processor.frame_collector import FrameCollector
 from deep.processor.variable_set_processor import VariableCacheProvider
 from deep.push import PushService
 from deep.utils import time_ns
+
+
+_OWN_VARIABLES = {}
+
+
+def _own_variables(code) -> Tuple[str, ...]:
+    """
+    Get the names that are variables of the function itself.
+
+    These hide a global of the same name on every line of the function, bound or not. Since python 3.12 the loop
+    variable of a comprehension is a fast local of the enclosing code object too (comprehensions are inlined), but
+    outside the comprehension its name still means the global: those are told apart by the instruction that saves
+    the outer value around an inlined comprehension.
+
+    :param code: the code object of the paused frame
+    :return: the names
+    """
+    if code is None:
+        return ()
+    names = _OWN_VARIABLES.get(code)
+    if names is None:
+        comprehension = set()
+        try:
+            for instruction in dis.get_instructions(code):
+                if instruction.opname == 'LOAD_FAST_AND_CLEAR':
+                    comprehension.add(instruction.argval)
+        except Exception:
+            pass
+        names = tuple(name for name in code.co_varnames + code.co_cellvars + code.co_freevars
+                      if name not in comprehension)
+        _OWN_VARIABLES[code] = names
+    return names
 
 
 class TriggerContext:
@@ -172,8 +205,7 @@ class TriggerContext:
             scope.update(f_locals)
             # a local of the function that is not bound yet hides the global of the same name: at that line the name
             # gives an error, not the value of the global
-            code = getattr(self.__frame, 'f_code', None)
-            for name in getattr(code, 'co_varnames', ()) + getattr(code, 'co_cellvars', ()):
+            for name in _own_variables(getattr(self.__frame, 'f_code', None)):
                 if name not in f_locals:
                     scope.pop(name, None)
             return True, eval(expression, scope)
